@@ -1260,4 +1260,116 @@ theorem parseTemplate_spec (t : Str) (segs : List Seg) (h : parseTemplate t = so
     (fun s hs => by simp at hs)
   simpa using this
 
+/-! ### Bool hypotheses, duplicate filter -/
+
+theorem openFree_noOpen {s : Str} (h : openFree s = true) : noOpen s := by
+  intro c hc
+  unfold openFree at h
+  rw [List.all_eq_true] at h
+  have := h c hc
+  simpa using this
+
+theorem stdLoggerGo_mem (render : Finding → Str) : ∀ (fs : List Finding) (shown : List Str) (f : Finding),
+    f ∈ stdLoggerGo render fs shown → f ∈ fs ∧ f.severity ≠ 8 ∧ render f ∉ shown := by
+  intro fs
+  induction fs with
+  | nil => intro shown f h; simp [stdLoggerGo] at h
+  | cons g r ih =>
+    intro shown f h
+    simp only [stdLoggerGo] at h
+    split at h
+    · have := ih shown f h; exact ⟨by simp [this.1], this.2⟩
+    · rename_i hsev
+      split at h
+      · have := ih shown f h; exact ⟨by simp [this.1], this.2⟩
+      · rename_i hshown
+        simp only [List.mem_cons] at h
+        rcases h with rfl | h
+        · exact ⟨by simp, hsev, by simpa using hshown⟩
+        · have := ih (render g :: shown) f h
+          exact ⟨by simp [this.1], this.2.1, fun hm => this.2.2 (by simp [hm])⟩
+
+/-- no rendering is printed twice -/
+theorem each_once_nodup (render : Finding → Str) : ∀ (fs : List Finding) (shown : List Str),
+    ((stdLoggerGo render fs shown).map render).Nodup := by
+  intro fs
+  induction fs with
+  | nil => intro shown; simp [stdLoggerGo]
+  | cons g r ih =>
+    intro shown
+    simp only [stdLoggerGo]
+    split
+    · exact ih shown
+    · split
+      · exact ih shown
+      · rw [List.map_cons, List.nodup_cons]
+        refine ⟨?_, ih _⟩
+        intro hm
+        simp only [List.mem_map] at hm
+        obtain ⟨f, hf, he⟩ := hm
+        have := (stdLoggerGo_mem render r (render g :: shown) f hf).2.2
+        exact this (by simp [he])
+
+/-- every rendering of a non-internal finding is printed (so, with `each_once_nodup`, exactly once) -/
+theorem each_once_covered (render : Finding → Str) : ∀ (fs : List Finding) (shown : List Str) (f : Finding),
+    f ∈ fs → f.severity ≠ 8 → render f ∈ shown ∨ render f ∈ (stdLoggerGo render fs shown).map render := by
+  intro fs
+  induction fs with
+  | nil => intro shown f h; simp at h
+  | cons g r ih =>
+    intro shown f hf hsev
+    simp only [List.mem_cons] at hf
+    simp only [stdLoggerGo]
+    rcases hf with rfl | hf
+    · rw [if_neg hsev]
+      split
+      · rename_i hs; left; simpa using hs
+      · right; simp
+    · split
+      · exact ih shown f hf hsev
+      · split
+        · exact ih shown f hf hsev
+        · rcases ih (render g :: shown) f hf hsev with h | h
+          · simp only [List.mem_cons] at h
+            rcases h with h | h
+            · right; simp [h]
+            · left; exact h
+          · right; simp only [List.map_cons, List.mem_cons]; right; exact h
+
+theorem stdLoggerGo_all (render : Finding → Str) : ∀ (fs : List Finding) (shown : List Str),
+    ((fs.filter (fun f => f.severity ≠ 8)).map render).Nodup →
+    (∀ f ∈ fs, f.severity ≠ 8 → render f ∉ shown) →
+    stdLoggerGo render fs shown = fs.filter (fun f => f.severity ≠ 8) := by
+  intro fs
+  induction fs with
+  | nil => intro shown _ _; rfl
+  | cons g r ih =>
+    intro shown hnd hns
+    simp only [stdLoggerGo]
+    by_cases hsev : g.severity = 8
+    · rw [if_pos hsev]
+      have : (g :: r).filter (fun f => decide (f.severity ≠ 8)) = r.filter (fun f => decide (f.severity ≠ 8)) := by
+        simp [List.filter, hsev]
+      rw [this] at hnd ⊢
+      exact ih shown hnd (fun f hf => hns f (by simp [hf]))
+    · rw [if_neg hsev]
+      have hflt : (g :: r).filter (fun f => decide (f.severity ≠ 8)) = g :: r.filter (fun f => decide (f.severity ≠ 8)) := by
+        simp [List.filter, hsev]
+      rw [hflt] at hnd ⊢
+      rw [List.map_cons, List.nodup_cons] at hnd
+      have hg : render g ∉ shown := hns g (by simp) hsev
+      have : shown.contains (render g) = false := by simpa using hg
+      rw [this]
+      simp only [Bool.false_eq_true, if_false]
+      congr 1
+      apply ih _ hnd.2
+      intro f hf hfs hm
+      simp only [List.mem_cons] at hm
+      rcases hm with hm | hm
+      · apply hnd.1
+        rw [← hm]
+        exact List.mem_map.mpr ⟨f, by simp [List.mem_filter, hf, hfs], rfl⟩
+      · exact hns f (by simp [hf]) hfs hm
+
+
 end Cppcheck.Template
